@@ -6,7 +6,7 @@
    C13 statement, executable = the judge of the end-to-end correspondence run). *)
 From CSL Require Import Base.Prelude Base.U64 Cbor.Head Codec.Schema Ledger.Schemas
   Batch.Calc Batch.CalcProofs Batch.Denote Batch.EncProofs Batch.IntermediateProofs
-  Batch.Proposal Batch.ProposalProofs Batch.BatchProofs Batch.PureAda Batch.PureAdaProofs.
+  Batch.Proposal Batch.ProposalProofs Batch.BatchProofs Batch.PureAda Batch.PureAdaProofs Batch.AssetPath Batch.AssetPathProofs.
 From CSL Require Cbor.Item Batch.BatchSpec Batch.JudgeProofs.
 From Coq Require Import Permutation.
 Local Open Scope N_scope.
@@ -155,6 +155,29 @@ Example C13_pure_ada_example :
                  57 44 155381 4310 5000 16384 13900000 in
   no_assets c = true /\ pure_send_all c = Ok [mkAtx [1; 0; 2] [(13725259, [])] 174741 [0; 1]].
 Proof. split; vm_compute; reflexivity. Qed.
+
+(* FULL C13 for the complete batcher, asset path included (Batch/AssetPath.v: prototype_append, make_candidate, the
+   intersections, add_assets_to_proposal_output, the build loop), for EVERY oracle = every iteration order the hash sets
+   can take: no "any accepted operation sequence" abstraction is left; the correspondence run feeds the orders the
+   implementation took and compares every transaction exactly *)
+Theorem C13_full : forall c o txs,
+  utxos_ok c -> ctx_wf c -> full_send_all c o = Ok txs ->
+  Permutation (concat (map x_inputs txs)) (all_indices c) /\ Forall (tx_valid c) txs.
+Proof. exact full_send_all_sound. Qed.
+Print Assumptions C13_full.
+
+(* ... because it refines the abstract batch: every successful run is a plan of accepted operation sequences *)
+Theorem C13_refinement : forall c fuel st o txs,
+  utxos_ok c -> pools_ok c st -> build_all fuel c st o = Ok txs -> exists plan, batch c (flat st) plan = Ok txs.
+Proof. intros c fuel st o txs Hu. exact (build_all_batch c Hu fuel st o txs). Qed.
+Print Assumptions C13_refinement.
+
+Example C13_full_example :
+  utxos_ok ex_ctx /\ full_send_all ex_ctx [] = Ok [mkAtx [0; 1] [(12831463, [[(3, 7, 7)]])] 168537 [0]].
+Proof.
+  split; [|vm_compute; reflexivity]. intros u. unfold uassets, utxo_of, nthN, ex_ctx. cbn [cx_utxos].
+  destruct (N.to_nat u) as [|[|[|n]]]; cbn; repeat constructor; intros [].
+Qed.
 
 (* the premises are satisfiable: a two-UTxO layout with an asset, mainnet parameters *)
 Example C13_example :
